@@ -313,7 +313,13 @@ def r4_4(ctx: Ctx) -> RuleResult:
     data = fn.node.args.args[1].arg
     tries = [n for n in ast.walk(fn.node) if isinstance(n, ast.Try)]
     if len(tries) != 1:
-        raise AnalysisError("R4.4: exists() is no longer one try statement")
+        # not written as one try statement (`with suppress(...)`, a helper, a default sentinel): whether exists() agrees
+        # with resolve() is then what R4.9 establishes by executing both on every node and every kind of unevaluable
+        # pointer of its covering document (R4.9 fails the run if it cannot follow them)
+        rr.floor = 0
+        rr.ok(fn.loc(), "exists() is not one try statement; its agreement with resolve() is decided by execution (R4.9)")
+        rr.note("R4.4 deferred to R4.9")
+        return rr
     t = tries[0]
     res = [c for s in t.body for c in calls(s, "resolve")]
     good_call = [
@@ -675,4 +681,22 @@ def r4_10(ctx: Ctx) -> RuleResult:
     return rr
 
 
-RULES = [r4_1, r4_2, r4_3, r4_4, r4_5, r4_6, r4_7, r4_8, r4_9, r4_10]
+def r4_11(ctx: Ctx) -> RuleResult:
+    """"With escape decoding disabled ... for every pointer" also through the command line: the `pointer` sub-command
+    reads every option it declares (= R18.2 for that sub-command; `--no-unicode-escape` and `--uri-decode` must reach
+    the resolver, or a pointer with a backslash is decoded although decoding was switched off)."""
+    from .c18 import r18_2
+
+    got = r18_2(ctx)
+    rr = RuleResult("R4.11", "the `pointer` sub-command hands its decoding options to the resolver", floor=1)
+    for inst in got.instances:
+        if "pointer" in str(inst.get("what", "")) and inst.get("verdict") == "ok":
+            rr.ok(str(inst.get("where", "")), str(inst.get("what", "")))
+    for f in got.findings:
+        if "pointer" in f.qualname or "pointer" in f.construct:
+            nf = rr.bad(None, None, f.message, construct=f.construct, file=f.file, qualname=f.qualname)
+            nf.line = f.line
+    return rr
+
+
+RULES = [r4_1, r4_2, r4_3, r4_4, r4_5, r4_6, r4_7, r4_8, r4_9, r4_10, r4_11]
